@@ -59,7 +59,7 @@ def big_arg(fam, v):
     return U(v) if fam == "u" else I(v)
 
 def gen_scalar_arith(rng, tier, cases):
-    per = 3 if tier == "quick" else 12
+    per = 3 if tier == "quick" else 30
     for fam, types in (("u", UT), ("i", UT + IT)):
         for ty in types:
             ss = scalars(rng, ty)
